@@ -66,7 +66,7 @@ func CheckC09(tier string, seed uint64, rep *core.Reporter) (*core.Evidence, err
 			return nil, err
 		}
 		res, err := w.RunShards(w.Runsim, "c09", bseed, runs, 14, nil, nil, 40*time.Minute)
-		if err == nil && b == 0 {
+		if err == nil && b == 0 && len(res.Violations) == 0 {
 			detHash, err = w.DeterminismProbe(w.Runsim, "c09", bseed, 200, nil)
 		}
 		rejected += w.Rejected
